@@ -147,6 +147,13 @@ def law_tensordot(ch):
             ref = check_result_legs(res, a, b, free_a, free_b, sig)
             dense_equal(D.dense_of(res, ref=ref), want, sig + ":value",
                         exact=True, what=f"{mode} axes {ax2}")
+    if a.blocks:
+        # documented shorthand: a rank-0 second operand is a scalar factor
+        r0 = must(sr.tensordot, a, 3, 0, what="tensordot(a, scalar)")
+        dense_equal(D.dense_of(r0, ref=[dict(ix.chargemap)
+                                        for ix in a.indices]),
+                    3 * D.dense_of(a), "tensordot:scalar-operand",
+                    exact=True, what="tensordot(a, 3, 0)")
     ch.label(f"symm={symm}")
     ch.label(f"ncon={ncon}")
     ch.label(f"form={form}")
